@@ -97,7 +97,7 @@ PROPS = {
         "kani": ["types"],
         "technique": "Verus contracts on new_append (reuses the reader's directory contracts) + frame clauses of the writer operations",
         "level_text": "Deductive proof that new_append returns a well-formed writer whose entry list is the APPNOTE parse of the old central directory (same contracts as the reader), with the existing bytes untouched, positioned exactly on the old directory (the final seek is propagated) and in the state in which the first close does not rewrite the last old entry; every later operation leaves all entries but the open one untouched (frame clauses); the re-emitted central header carries system, version, flags, method, time, CRC, sizes, attributes and offset of the entry record (U5), which is what the reader parsed (U6). The repaired defect (refused start_file corrupting the last old entry) is pinned.",
-        "level_note": "per-entry comments and the data-descriptor flag are not re-emitted (not listed by the property); the byte-level frame 'nothing below the old directory start is ever written again' follows from append-only positions and the in-place back-patch contracts, not from a single checked lemma; the collect() in new_append is an assumed contract equal to the loop proved for ZipArchive::new",
+        "level_note": "per-entry comments and the data-descriptor flag are not re-emitted (not listed by the property); the byte-level frame 'nothing below the old directory start is ever written again' follows from append-only positions and the in-place back-patch contracts, not from a single checked lemma; the map(..).collect::<Result<Vec<_>,_>>() in new_append is a verified transcription (the same loop that is proved for ZipArchive::new)",
         "undecided": ["byte-level frame lemma over whole sequences (append-only positions + back-patch contracts are proved per function)"],
     },
     "C14": {
